@@ -3280,6 +3280,174 @@ def drop_reraise_handlers(tree: ast.Module) -> int:
     return count
 
 
+def inline_record_methods(tree: ast.Module) -> int:
+    """A NamedTuple / frozen dataclass with tiny methods (`def expired(self): return 0 <= self.timeout < time.time() -
+    self.started`): a call `w.expired()` is that expression with `w` for `self`.  A method is read in place when its body is
+    one `return <expr>`, it has plain positional parameters, its name is used for nothing else in the module, and every
+    receiver is a plain name (so that it can stand for `self` several times).  Methods all of whose uses were read in
+    place are dropped from the class, which is then a plain record for the record normalisations."""
+    import copy
+    import builtins
+    count = 0
+    recs: List[ast.ClassDef] = []
+    for st in tree.body:
+        if isinstance(st, ast.ClassDef):
+            bases = [ast.unparse(b).split('.')[-1] for b in st.bases]
+            dc = any(isinstance(d, ast.Call) and ast.unparse(d.func).split('.')[-1] == 'dataclass' for d in st.decorator_list)
+            if (bases == ['NamedTuple'] and not st.keywords) or (dc and not bases):
+                recs.append(st)
+    if not recs:
+        return 0
+    common = set()
+    for t_ in (dict, list, set, str, tuple, bytes, object, int, float):
+        common |= set(dir(t_))
+    common |= {'set', 'clear', 'wait', 'is_set', 'put', 'get', 'put_nowait', 'get_nowait', 'join', 'task_done', 'cancel', 'done', 'result',
+               'exception', 'acquire', 'release', 'locked', 'close', 'send', 'throw', 'submit', 'shutdown', 'start', 'run', 'stop'}
+    for cls in recs:
+        fields = {b.target.id for b in cls.body if isinstance(b, ast.AnnAssign) and isinstance(b.target, ast.Name)}
+        for m in [b for b in cls.body if isinstance(b, ast.FunctionDef)]:
+            body = [x for x in m.body if not (isinstance(x, ast.Expr) and isinstance(x.value, ast.Constant))]
+            a = m.args
+            if m.decorator_list or len(body) != 1 or not isinstance(body[0], ast.Return) or body[0].value is None \
+                    or a.vararg or a.kwarg or a.kwonlyargs or a.posonlyargs or a.defaults or not a.args or m.name in common \
+                    or m.name.startswith('__'):
+                continue
+            selfn = a.args[0].arg
+            params = [x.arg for x in a.args[1:]]
+            expr = body[0].value
+            # self is only read through its fields
+            if any(isinstance(z, ast.Name) and z.id == selfn and not (isinstance(getattr(z, '_p', None), ast.Attribute)) for z in ()):
+                continue
+            ok_self = True
+            for z in ast.walk(expr):
+                for ch in ast.iter_child_nodes(z):
+                    if isinstance(ch, ast.Name) and ch.id == selfn and not (isinstance(z, ast.Attribute) and z.value is ch and z.attr in fields):
+                        ok_self = False
+            if not ok_self:
+                continue
+            # every mention of the name in the module is a call on a plain name with the right number of arguments
+            uses = [z for z in ast.walk(tree) if isinstance(z, ast.Attribute) and z.attr == m.name]
+            other_defs = [z for z in ast.walk(tree) if isinstance(z, (ast.FunctionDef, ast.AsyncFunctionDef)) and z.name == m.name and z is not m]
+            if not uses or other_defs:
+                continue
+            parents: Dict[int, ast.AST] = {}
+            for z in ast.walk(tree):
+                for ch in ast.iter_child_nodes(z):
+                    parents[id(ch)] = z
+            sites = []
+            good = True
+            for u in uses:
+                c = parents.get(id(u))
+                if not (isinstance(c, ast.Call) and c.func is u and isinstance(u.value, ast.Name) and len(c.args) == len(params)
+                        and not c.keywords and not any(isinstance(x, ast.Starred) for x in c.args)):
+                    good = False
+                    break
+                sites.append(c)
+            if not good:
+                continue
+            for c in sites:
+                recv = c.func.value.id
+                amap = dict(zip(params, c.args))
+
+                class R(ast.NodeTransformer):
+                    def visit_Name(self, node: ast.Name):
+                        if node.id == selfn:
+                            return ast.copy_location(ast.Name(id=recv, ctx=node.ctx), node)
+                        if node.id in amap and isinstance(node.ctx, ast.Load):
+                            return ast.copy_location(copy.deepcopy(amap[node.id]), node)
+                        return node
+                new = R().visit(copy.deepcopy(expr))
+                for z in ast.walk(new):
+                    if hasattr(z, 'lineno'):
+                        z.lineno, z.col_offset = c.lineno, c.col_offset
+                        z.end_lineno, z.end_col_offset = getattr(c, 'end_lineno', c.lineno), getattr(c, 'end_col_offset', c.col_offset)
+                par = parents[id(c)]
+                for fld, val in ast.iter_fields(par):
+                    if val is c:
+                        setattr(par, fld, new)
+                    elif isinstance(val, list):
+                        for i, x in enumerate(val):
+                            if x is c:
+                                val[i] = new
+                count += 1
+            cls.body.remove(m)
+            if not cls.body:
+                cls.body.append(ast.Pass())
+    return count
+
+
+def scalarize_records(tree: ast.Module) -> int:
+    """`w = (a, f(), c)` bound once in a function and read only as `w[0]`, `w[1]`, ... (what a NamedTuple variable has become
+    by now): one local per element, assigned where the tuple was built - `w_0 = a; w_1 = f(); w_2 = c` - and read where the
+    element was read.  Same values at the same moments; the elements no longer hide in an aggregate."""
+    count = 0
+    FN = (ast.FunctionDef, ast.AsyncFunctionDef)
+    for fn in [n for n in ast.walk(tree) if isinstance(n, FN)]:
+        nested: Set[int] = set()
+        for ch in ast.walk(fn):
+            if ch is not fn and isinstance(ch, FN + (ast.Lambda, ast.ClassDef)):
+                nested |= {id(z) for z in ast.walk(ch)}
+        parents: Dict[int, ast.AST] = {}
+        for z in ast.walk(fn):
+            for c_ in ast.iter_child_nodes(z):
+                parents[id(c_)] = z
+        stores: Dict[str, List[ast.Name]] = {}
+        loads: Dict[str, List[ast.Name]] = {}
+        for z in ast.walk(fn):
+            if isinstance(z, ast.Name):
+                (stores if isinstance(z.ctx, (ast.Store, ast.Del)) else loads).setdefault(z.id, []).append(z)
+        a = fn.args
+        params = {x.arg for x in a.posonlyargs + a.args + a.kwonlyargs} | ({a.vararg.arg} if a.vararg else set()) | ({a.kwarg.arg} if a.kwarg else set())
+        for x, sts in list(stores.items()):
+            if len(sts) != 1 or x in params or id(sts[0]) in nested:
+                continue
+            asg = parents.get(id(sts[0]))
+            if not (isinstance(asg, ast.Assign) and len(asg.targets) == 1 and asg.targets[0] is sts[0] and isinstance(asg.value, ast.Tuple)
+                    and asg.value.elts and not any(isinstance(e, ast.Starred) for e in asg.value.elts)):
+                continue
+            n = len(asg.value.elts)
+            ok = bool(loads.get(x))
+            for l in loads.get(x, []):
+                p_ = parents.get(id(l))
+                if id(l) in nested or not (isinstance(p_, ast.Subscript) and p_.value is l and isinstance(p_.ctx, ast.Load)
+                                           and isinstance(p_.slice, ast.Constant) and isinstance(p_.slice.value, int)
+                                           and not isinstance(p_.slice.value, bool) and 0 <= p_.slice.value < n):
+                    ok = False
+            if not ok or any(isinstance(z, (ast.Global, ast.Nonlocal)) and x in z.names for z in ast.walk(fn)):
+                continue
+            holder = parents.get(id(asg))
+            blk = None
+            for f_ in ('body', 'orelse', 'finalbody'):
+                v_ = getattr(holder, f_, None)
+                if isinstance(v_, list) and asg in v_:
+                    blk = v_
+            if blk is None:
+                continue
+            names = [f'{x}\u00b7{i}' for i in range(n)]
+            new_stmts = []
+            for nm, e in zip(names, asg.value.elts):
+                st = ast.Assign(targets=[ast.copy_location(ast.Name(id=nm, ctx=ast.Store()), asg)], value=e)
+                ast.copy_location(st, asg)
+                new_stmts.append(st)
+            i0 = blk.index(asg)
+            blk[i0:i0 + 1] = new_stmts
+            for l in loads.get(x, []):
+                p_ = parents[id(l)]
+                new = ast.copy_location(ast.Name(id=names[p_.slice.value], ctx=ast.Load()), p_)
+                pp = parents[id(p_)]
+                for f_, v_ in ast.iter_fields(pp):
+                    if v_ is p_:
+                        setattr(pp, f_, new)
+                    elif isinstance(v_, list):
+                        for j, y in enumerate(v_):
+                            if y is p_:
+                                v_[j] = new
+            fn._added_locals = set(getattr(fn, '_added_locals', set())) | set(names)  # type: ignore[attr-defined]
+            fn._removed_locals = set(getattr(fn, '_removed_locals', set())) | {x}  # type: ignore[attr-defined]
+            count += 1
+    return count
+
+
 def fold_negations(tree: ast.Module) -> int:
     """`not (a is not b)` -> `a is b`, `not (a is b)` -> `a is not b`, likewise `in` / `not in` (these pairs are exact
     negations of each other for every operand; `==` / `!=` are not and stay); `not not e` -> `e` where only the truth of the
